@@ -5,7 +5,7 @@
    ExtrOCamlInt63 (Uint63 -> Uint63 of coq-core.kernel). Z, positive, nat stay
    the extracted inductive datatypes. *)
 Require Import ExtrOcamlBasic ExtrOcamlString ExtrOCamlFloats ExtrOCamlInt63.
-From SV Require Import TridiagEig Wrap.
+From SV Require Import TridiagEig Wrap Schur.
 From SV Require Import Cxx Ops RngGen SortKey SortGen SortModel ArgsGen ArgsModel GlueGen LinAlg Givens HessQR TridiagQR DoubleShift Arnoldi BK.
 
 Definition rng_real_f (s : Z) := random_real OpsFloat s.
@@ -28,4 +28,5 @@ Extraction "model.ml" next_long_rand seed_norm rng_real_f rng_complex_f
   Arnoldi.init arnoldi_factorize_from_k lanczos_factorize_from_k Arnoldi.compress_V identity
   bk_compute bk_solve bk_choice
   te_compute he_eigenvalues make_givens
-  ssi_solve dsss_solve.
+  ssi_solve dsss_solve
+  sc_compute.
